@@ -96,8 +96,4 @@ func runLemmas(id string, prog *Program, specs *SpecSet, opts solveOpts, known *
 	return res
 }
 
-func runStructural(id string, prog *Program, specs *SpecSet) extraResult {
-	return extraResult{bySolver: map[string]int{}}
-}
-
 func (c *Ctx) tryReplay(res *FuncResult, o *Obligation, dir string) bool { return false }
